@@ -100,6 +100,7 @@ def run(P, chk, tier):
     replay(P, E, chk)
     fingerprints(P, E, chk, hnr)
     rings(P, E, chk)
+    readonly_checks(P, chk)
 
 
 def _reaches(f, a, b):
@@ -291,6 +292,9 @@ def fingerprints(P, E, chk, hnr):
     for f, callee, ci, ti in ((sv, "save_to_qmem", 4, 5), (ck, "answer_from_qmem", 5, None)):
         for b, c in f.calls(callee):
             a = c["a"]
+            if len(a) != 6:
+                chk.undecided(r4, f, ir.loc(c), pp(c)[:60], "%s() no longer takes the six arguments this rule knows" % callee)
+                continue
             okb = pp(sk(a[ci])) in ("cmc",)
             an = E.analysis(f)
             if ti is not None:
@@ -305,6 +309,9 @@ def fingerprints(P, E, chk, hnr):
     _, _, calls = tables.reach_under(hnr, {"in[0]": ord("P")})
     up = [c for b, c in calls if c.get("fn") == "unpack_data"]
     aq = [c for b, c in calls if c.get("fn") == "answer_from_qmem"]
+    if len(aq) == 1 and len(aq[0]["a"]) != 6:
+        chk.undecided(r4, hnr, ir.loc(aq[0]), "ping fingerprint checked", "answer_from_qmem() no longer takes the six arguments this rule knows")
+        return
     okpc = len(up) == 1 and len(aq) == 1 and pp(sk(up[0]["a"][2])) == "&in[1]" and "base32_ops" in pp(up[0]["a"][4]) \
         and pp(sk(aq[0]["a"][5])) == pp(sk(up[0]["a"][0]))
     chk.site(r4, hnr, ir.loc(aq[0]) if aq else hnr.line, "ping fingerprint checked", okpc,
@@ -365,7 +372,11 @@ def rings(P, E, chk):
             # the type array decays to a pointer: take the extent from the member declaration
             nm = pp(sk(a[1]))
             ext = _member_extent(P, nm.split(".")[-1])
-            ok = ext is not None and cval(sk(a[2])) == ext and ext >= 1
+            if ext is None or cval(sk(a[2])) is None:
+                chk.undecided(r5, f, ir.loc(c), pp(c)[:60], "the ring and its length are not a member array and a constant here "
+                              "(length %s, extent %s)" % (pp(sk(a[2])), ext))
+                continue
+            ok = cval(sk(a[2])) == ext and ext >= 1
             chk.site(r5, f, ir.loc(c), pp(c)[:60], ok, "length argument %s, array extent %s" % (cval(sk(a[2])), ext))
 
 
@@ -377,3 +388,29 @@ def _member_extent(P, field):
                     if fd["name"] == field and (fd["t"] or {}).get("k") == "array":
                         return fd["t"].get("n")
     return None
+
+
+def readonly_checks(P, chk):
+    """R6: looking a query up in the memories does not change them."""
+    r6 = chk.rule("C16.R6", "duplicate checks do not modify the memories",
+                  "answer_from_dnscache, answer_from_qmem and answer_from_qmem_data neither call a function that stores into "
+                  "the query memories nor write a ring themselves: a repeated duplicate cannot push other remembered queries out",
+                  "E6 call graph + direct writes", floor=3)
+    savers = {"save_to_qmem", "save_to_qmem_pingordata", "save_to_dnscache"}
+    for name in ("answer_from_dnscache", "answer_from_qmem", "answer_from_qmem_data"):
+        if not P.has_func(name, "iodined.c"):
+            raise AnalysisBroken("C16.R6: %s not found" % name)
+        f = P.func(name, "iodined.c")
+        below = {g.name for g in P.reachable_from([f])}
+        hit = sorted(below & savers)
+        ringp = {p["ref"]["name"] for p in f.params if p["ref"]["name"].startswith("qmem")}
+        direct = []
+        for node, pth, pt, val, kind in C.writes_in(P, f):
+            if not pth:
+                continue
+            if pth[0][1] in ringp or any(c_[0] == "f" and (c_[2].startswith("qmem") or c_[2].startswith("dnscache")) for c_ in pth):
+                direct.append(ir.loc(node))
+        ok = not hit and not direct
+        chk.site(r6, f, f.line, "%s is read-only on the memories" % name, ok,
+                 "no saver below it, no direct ring write" if ok else
+                 "%s%s" % ("reaches %s; " % hit if hit else "", "writes a ring at line %s" % direct if direct else ""))
